@@ -41,6 +41,10 @@ fn main() {
         std::panic::set_hook(Box::new(|_| {}));
     }
     #[cfg(feature = "sdk")]
+    if args[0] == "--c17-child" {
+        monitor::c17sys::child_main(&args[1..]);
+    }
+    #[cfg(feature = "sdk")]
     if args[0] == "--c19-child" {
         monitor::c19crash::child_main(&args[1..]);
     }
